@@ -154,6 +154,7 @@ class StmtMixin(object):
         for n in texts[a]:
           amap.setdefault(id(n), []).append(g)
           exact_nodes.add(id(n))
+        self.anchor_lines.setdefault(spec.name, {})[a] = texts[a][0].lineno - fnode.lineno
       else:
         pending.append((g, a))
     for g, a in pending:
@@ -175,6 +176,18 @@ class StmtMixin(object):
                 out.add(ast.unparse(e))
           return out
         cands = [n for n in stmts if id(n) not in exact_nodes and shape[1] in names(n)]
+      if not cands and isinstance(an, ast.Assign):
+        # the assigned local was renamed: the unique assignment of the same right-hand side
+        rhs = ast.unparse(an.value)
+        cands = [n for n in stmts if id(n) not in exact_nodes and isinstance(n, ast.Assign) and ast.unparse(n.value) == rhs]
+      if len(cands) > 1:
+        # several statements of that shape: the one closest to where the anchor stood on the unchanged tree
+        # (line offset within the function, recorded with the baseline)
+        hint = (getattr(self, 'anchor_hints', None) or {}).get(spec.name, {}).get(a)
+        if hint is not None:
+          ds = sorted((abs((n.lineno - fnode.lineno) - hint), k) for k, n in enumerate(cands))
+          if len(ds) == 1 or ds[0][0] < ds[1][0]:
+            cands = [cands[ds[0][1]]]
       if len(cands) == 1:
         amap.setdefault(id(cands[0]), []).append(g)
         drift.append('%s: anchor %r re-attached to %r (line %d)' % (spec.name, a, self._stmt_text(cands[0]), cands[0].lineno))
